@@ -38,7 +38,7 @@ func init() {
 			"if strace cannot attach in this environment the traced half is reported inconclusive and the in-process observers decide alone",
 		},
 		Shards:   shards(8, 16),
-		Timeout:  timeouts(4*time.Minute, 40*time.Minute),
+		Timeout:  timeouts(12*time.Minute, 90*time.Minute),
 		MinEvals: 200,
 		Required: []string{"field:walk", "field:create", "field:rename", "field:attach", "rename_chains", "root:fresh-fid-after-change", "root:remove", "root:rename", "root:remove-emptied", "sentinel_snapshots_compared", "followups_after_hostile_rename", "requests_refused", "requests_accepted", "vanished_cwd_probes"},
 		Run:      runC15,
